@@ -9,7 +9,7 @@ sys.path.insert(0, os.path.dirname(os.path.abspath(__file__)))
 from common import SPEC, ToolError, build_harness, log, sany, seed_tier  # noqa: E402
 
 CODEC_PROPS = {"C09", "C14", "C16", "C18"}
-CLIENT_PROPS = {"C05", "C06", "C07", "C10", "C11", "C12", "C15", "C17"}
+CLIENT_PROPS = {"C05", "C06", "C07", "C08", "C13", "C10", "C11", "C12", "C15", "C17"}
 
 
 def setup():
